@@ -1,6 +1,7 @@
 package main
 
 import (
+	"go/token"
 	"fmt"
 	"go/constant"
 	"go/types"
@@ -200,6 +201,7 @@ func (e *Engine) verifyFunc(fn *ssa.Function, fc *FuncContract, safety bool, dev
 				fr.oblig(kind, a.c.Props, fn.Pos(), a.c.name(), or(a.conds...), and(a.goals...))
 			}
 		}
+		fr.appendAliasObligations(allProps(fc))
 		// "#*" site clauses must bind to at least one statement
 		for _, a := range fc.Asserts {
 			if a.Occ != -1 || a.E == nil {
@@ -551,5 +553,185 @@ func (e *Engine) bindCapturedClosures(ft *FT, fr *frame, fn *ssa.Function, st *S
 			e.cellClos[ft] = map[string]*Closure{}
 		}
 		e.cellClos[ft][cell] = &Closure{Fn: target, Bindings: binds}
+	}
+}
+
+// appendAliasObligations backs the value-semantics model of append: an
+// append whose first argument is a two-index sub-slice x[a:b] of a slice o
+// may write in place into o's backing array. That is harmless only if no
+// slice viewing that array (o itself, or another sub-slice of o) is read
+// afterwards. One obligation per such append site.
+func (fr *frame) appendAliasObligations(props []string) {
+	fn := fr.fn
+	e := fr.ft.e
+	origin := func(v ssa.Value) (ssa.Value, bool) {
+		sub := false
+		for {
+			sl, ok := v.(*ssa.Slice)
+			if !ok {
+				return v, sub
+			}
+			if _, isSl := sl.X.Type().Underlying().(*types.Slice); !isSl {
+				return v, sub
+			}
+			if sl.Max != nil {
+				return v, false // capacity cut: append reallocates
+			}
+			sub = true
+			v = sl.X
+		}
+	}
+	// two loads of the same field of the same object denote the same slice
+	// (as long as the field is not assigned in between: ignored, conservative
+	// in the direction of more obligations failing)
+	key := func(v ssa.Value) string {
+		if ld, ok := v.(*ssa.UnOp); ok && ld.Op == token.MUL {
+			if fa, ok := ld.X.(*ssa.FieldAddr); ok {
+				return fmt.Sprintf("field:%s.%d", fa.X.Name(), fa.Field)
+			}
+		}
+		return "val:" + v.Name()
+	}
+	for _, b := range fn.Blocks {
+		for idx, ins := range b.Instrs {
+			call, ok := ins.(*ssa.Call)
+			if !ok {
+				continue
+			}
+			bi, isB := call.Call.Value.(*ssa.Builtin)
+			if !isB || bi.Name() != "append" || len(call.Call.Args) != 2 {
+				continue
+			}
+			// the first argument may be a phi of several values: every sub-slice among them counts
+			var cands []ssa.Value
+			var collect func(v ssa.Value, depth int)
+			collect = func(v ssa.Value, depth int) {
+				if phi, ok := v.(*ssa.Phi); ok && depth < 4 {
+					for _, ed := range phi.Edges {
+						collect(ed, depth+1)
+					}
+					return
+				}
+				cands = append(cands, v)
+			}
+			collect(call.Call.Args[0], 0)
+			var o ssa.Value
+			isSub := false
+			var subVal ssa.Value
+			for _, cv := range cands {
+				if oo, sub := origin(cv); sub {
+					o, isSub, subVal = oo, true, cv
+				}
+			}
+			if !isSub {
+				continue
+			}
+			_ = subVal
+			// instructions that may execute after the append
+			after := map[ssa.Instruction]bool{}
+			for _, x := range b.Instrs[idx+1:] {
+				after[x] = true
+			}
+			seen := map[*ssa.BasicBlock]bool{}
+			var walk func(bb *ssa.BasicBlock)
+			walk = func(bb *ssa.BasicBlock) {
+				if seen[bb] {
+					return
+				}
+				seen[bb] = true
+				for _, x := range bb.Instrs {
+					after[x] = true
+				}
+				for _, sc := range bb.Succs {
+					walk(sc)
+				}
+			}
+			for _, sc := range b.Succs {
+				walk(sc)
+			}
+			// views of o's array: o and every sub-slice of it
+			bad := ""
+			views := []ssa.Value{o}
+			for _, bb := range fn.Blocks {
+				for _, x := range bb.Instrs {
+					if sl, ok := x.(*ssa.Slice); ok {
+						if oo, _ := origin(sl); key(oo) == key(o) && ssa.Value(sl) != call.Call.Args[0] && ssa.Value(sl) != subVal {
+							views = append(views, sl)
+						}
+					}
+				}
+			}
+			// values that may be one of these views: phis over them (fixpoint)
+			inViews := map[ssa.Value]bool{}
+			for _, v := range views {
+				inViews[v] = true
+			}
+			for changed := true; changed; {
+				changed = false
+				for _, bb := range fn.Blocks {
+					for _, x := range bb.Instrs {
+						phi, ok := x.(*ssa.Phi)
+						if !ok || inViews[phi] || ssa.Value(phi) == call.Call.Args[0] {
+							continue
+						}
+						for k, ed := range phi.Edges {
+							if !inViews[ed] {
+								continue
+							}
+							// the phi may hold the view at the time of the append if it was
+							// formed before it (its block dominates the append), or if the
+							// view flows into it along an edge taken after the append
+							pred := phi.Block().Preds[k]
+							formedBefore := phi.Block() != b && phi.Block().Dominates(b) || (phi.Block() == b)
+							if formedBefore || pred == b || seen[pred] {
+								inViews[phi] = true
+								views = append(views, phi)
+								changed = true
+								break
+							}
+						}
+					}
+				}
+			}
+			for _, v := range views {
+				refs := v.Referrers()
+				if refs == nil {
+					continue
+				}
+				for _, r := range *refs {
+					if r == ssa.Instruction(call) {
+						continue
+					}
+					if _, isDbg := r.(*ssa.DebugRef); isDbg {
+						continue
+					}
+					if sl, ok := r.(*ssa.Slice); ok && (ssa.Value(sl) == call.Call.Args[0] || ssa.Value(sl) == subVal) {
+						continue
+					}
+					if phi, ok := r.(*ssa.Phi); ok {
+						// the operand is used only along the edges it comes in through
+						for k, ed := range phi.Edges {
+							if ed != v {
+								continue
+							}
+							pred := phi.Block().Preds[k]
+							if pred == b || seen[pred] {
+								bad = fmt.Sprintf("%s flows on after the append (%s)", v.Name(), e.lineText(phi.Pos()))
+							}
+						}
+						continue
+					}
+					if after[r] {
+						bad = fmt.Sprintf("%s is read after the append at %s", v.Name(), e.lineText(r.Pos()))
+					}
+				}
+			}
+			goal := "true"
+			if bad != "" {
+				goal = "false"
+			}
+			o2 := fr.oblig("alias/append", props, call.Pos(), e.lineText(call.Pos()), "true", goal)
+			o2.SrcLine = "append to a sub-slice may write in place into the shared backing array: " + bad
+		}
 	}
 }
